@@ -23,6 +23,17 @@ CHECKS = {
              'copy() is checked for equal contents/order, independence and an untouched source. Bounded model checking.',
         note='Trusted: CrossHair path exhaustion, z3, the reference cache. Outside: max_size > 3 (quick) / 4 (thorough), longer histories.',
         ref='C02'),
+    'C10': dict(
+        technique='bounded symbolic execution (CrossHair/z3) of the real HeapPriorityQueue/SortedPriorityQueue/BarrelList code: '
+                  'the order pattern of symbolic priorities, sub-list layout and operations are solver variables; differential + sorted-list model',
+        text='Both queue classes run the same script (0..4 adds with symbolic priorities or None, then 1-2 operations from add/re-add/remove/'
+             'pop/peek with and without default, then a full drain) side by side and against a model; every weak ordering of the priorities '
+             'is explored to exhaustion. The BarrelList backend is driven into several sub-lists at small size (real split code with '
+             '_size_factor=1, and explicit symbolic cut points incl. empty sub-lists); BarrelList insert/pop/getitem/delitem/index/setitem '
+             'are additionally compared with list for all valid indexes over all 3-way partitions of <=5 items.',
+        note='Trusted: CrossHair/z3, the model. Outside: float/NaN priorities, custom priority_key, queues larger than the bound (production-size '
+             'layouts are represented only by the small-size layouts), out-of-range BarrelList indexes.',
+        ref='C10'),
     'C17': dict(
         technique='bounded symbolic execution (CrossHair/z3) of the real OneToOne/ManyToMany/FrozenDict methods: '
                   'one arbitrary operation from an arbitrary reachable pre-state, equality pattern of keys/values decided by the solver',
